@@ -23,19 +23,23 @@ var _ io.Writer = &GatedWriter{}
 // Flush tells the GatedWriter to flush any buffered data and to stop
 // buffering.
 func (w *GatedWriter) Flush() {
+	// Hold the lock while the buffered data goes out, so that nothing
+	// written from now on can overtake it
 	w.lock.Lock()
-	w.flush = true
-	w.lock.Unlock()
+	defer w.lock.Unlock()
 
+	w.flush = true
 	for _, p := range w.buf {
-		w.Write(p)
+		w.Writer.Write(p)
 	}
 	w.buf = nil
 }
 
 func (w *GatedWriter) Write(p []byte) (n int, err error) {
-	w.lock.RLock()
-	defer w.lock.RUnlock()
+	// The buffer is appended to below: concurrent writers must not share
+	// a read lock
+	w.lock.Lock()
+	defer w.lock.Unlock()
 
 	if w.flush {
 		return w.Writer.Write(p)
